@@ -543,6 +543,14 @@ def gen_mixed_portfolio(rng, kinds=ALL_KINDS, g=None, n_assets=(2, 6), n_nodes=(
             assets.append(a)
         else:
             assets.append(gen_contract(rng, g, 'c%d' % j, pick(rng, nodes), f, key, window=window))
+    if 'coarse_pair' in kinds and g['freq'] in COARSE_OF and rng.random() < 0.35:
+        # two assets with the same own frequency and the same window but different discount rates (they share one coarse restricted grid geometry)
+        cf = pick(rng, COARSE_OF[g['freq']])
+        s_, e_, _k = gen_window(rng, g, kinds=['none', 'none', 'inside', 'straddle_end'])
+        for q, w in enumerate((pick(rng, [0.2, 0.5]), 0.)):
+            a = gen_contract(rng, g, 'cp%d' % q, pick(rng, nodes), f, 'p0', window=False, take=False, dict_caps=False)
+            a['freq'] = cf; a['wacc'] = w; a['start'] = s_; a['end'] = e_
+            assets.append(a)
     if campaign and rng.random() < 0.25 and T >= 8:
         # a 'campaign' node: every asset attached to it is windowed, with a break in the middle of the horizon (no dispatch variable there at all)
         pts = grid_points(g)
